@@ -83,7 +83,11 @@ func genBytes(tp *simrt.Tape, big bool) []byte {
 
 func genError(tp *simrt.Tape) *conformancev1.Error {
 	e := &conformancev1.Error{Code: conformancev1.Code(1 + tp.Choose(16, "err.code"))}
-	switch tp.Choose(6, "err.msg") {
+	kind := tp.Choose(8, "err.msg")
+	if kind >= 6 {
+		kind = 4 // the messages that need percent-encoding get three of eight draws
+	}
+	switch kind {
 	case 0:
 		// message absent
 	case 1:
